@@ -244,7 +244,16 @@ double toDouble(const std::string& s, char dec, char scientificNotation)
 {
   if (!isDecimalNumber(s, dec, scientificNotation))
     throw Exception("TextTools::toDouble(). Invalid number specification: " + s);
-  return fromString<double>(s);
+  // Convert with the standard characters:
+  std::string t(s);
+  for (auto& ch : t)
+  {
+    if (ch == dec)
+      ch = '.';
+    else if (ch == scientificNotation)
+      ch = 'e';
+  }
+  return fromString<double>(t);
 }
 
 /******************************************************************************/
